@@ -127,6 +127,8 @@ type World struct {
 	Stdout    []byte
 	Stderr    []byte
 	nextH     int
+	openH     int // handles opened and not yet closed
+	MaxOpenH  int // high-water mark of openH
 	FiredSeq  []int
 	stickyErr syscall.Errno
 	// OutEvents records the order of stream writes: (seq, fd, n)
@@ -637,6 +639,10 @@ func (w *World) OpenFile(name string, flag int, perm fs.FileMode) (*Handle, sysc
 		op.Err = ErrnoName(e)
 		return nil, e
 	}
+	if lim := w.Spec.Knobs.MaxOpenFiles; lim > 0 && w.openH >= lim {
+		// the descriptor table of the process is full
+		return fail(syscall.EMFILE)
+	}
 	wantW := accMode(flag) == O_WRONLY || accMode(flag) == O_RDWR
 	wantR := accMode(flag) == O_RDONLY || accMode(flag) == O_RDWR
 	if e == syscall.ENOENT && r.parent != nil && flag&O_CREATE != 0 {
@@ -653,6 +659,7 @@ func (w *World) OpenFile(name string, flag int, perm fs.FileMode) (*Handle, sysc
 		op.Ino = n.Ino
 		w.nextH++
 		op.H = w.nextH
+		w.opened()
 		return &Handle{id: w.nextH, w: w, Name: name, abs: abs, node: n, flag: flag}, 0
 	}
 	if e != 0 {
@@ -685,7 +692,15 @@ func (w *World) OpenFile(name string, flag int, perm fs.FileMode) (*Handle, sysc
 	}
 	w.nextH++
 	op.H = w.nextH
+	w.opened()
 	return &Handle{id: w.nextH, w: w, Name: name, abs: abs, node: n, flag: flag}, 0
+}
+
+func (w *World) opened() {
+	w.openH++
+	if w.openH > w.MaxOpenH {
+		w.MaxOpenH = w.openH
+	}
 }
 
 func (h *Handle) World() *World  { return h.w }
@@ -935,6 +950,9 @@ func (h *Handle) Close() syscall.Errno {
 		op.Ino = h.node.Ino
 	}
 	h.closed = true
+	if h.stream == 0 && w.openH > 0 {
+		w.openH-- // the descriptor is released even when close reports an error
+	}
 	if e := w.simpleFault(op, f, false); e != 0 {
 		return e
 	}
